@@ -102,9 +102,15 @@ def case_assembly(n, shared=False, props=None):
         eng.stubs[JsonLogWriter.close] = close
 
         def cex(m):
+            iv = lambda name, d: (lambda x: d if x is None else x)(hx.mval(m, z3.Int(name)))
+            bv = lambda name: bool(hx.mval(m, z3.Bool(name)))
             return {'kind': 'assembly', 'n': n, 'props': sorted(props), 'shared': shared,
-                    'passed_out': [bool(hx.mval(m, z3.Bool(f'board{b}_passed_out'))) for b in range(1, n + 1)],
-                    'declarers': [hx.mval(m, z3.Int(f'board{b}_declarer')) for b in range(1, n + 1)]}
+                    'passed_out': [bv(f'board{b}_passed_out') for b in range(1, n + 1)],
+                    'declarers': [hx.mval(m, z3.Int(f'board{b}_declarer')) for b in range(1, n + 1)],
+                    # everything the stubs returned, so that the real Server.run can be driven with the same results
+                    'boards': [dict(passed_out=bv(f'board{b}_passed_out'), bid=iv(f'board{b}_bid', 1), declarer=iv(f'board{b}_declarer', 1),
+                                    x=bv(f'board{b}_x'), xx=bv(f'board{b}_xx'), tricks=iv(f'board{b}_tricks', 0),
+                                    dealer=iv(f'b{b - 1}_dealer', 1), vul=iv(f'b{b - 1}_vul', 1)) for b in range(1, n + 1)]}
         try:
             eng.call_function(Server.run, [srv], {})
         except symx.RaiseEx as e:
